@@ -1,5 +1,5 @@
 import MidoModel.Vlq
-import MidoModel.Generated.Src
+import MidoModel.Generated.SrcMetaNum
 import MidoProofs.SrcTie.Basic
 import MidoProofs.SrcTie.Codec
 set_option linter.unusedSimpArgs false
@@ -158,8 +158,6 @@ theorem src_encode_variable_int_neg (v : Int) (h : v < 0) :
     Src.encode_variable_int v = .error .ValueError := by
   simp [Src.encode_variable_int, h, bind, Except.bind, throw, throwThe, MonadExceptOf.throw]
 
-/-! ### `read_variable_int` of midifiles.py (the reader side) -/
-
 theorem vlq_step (acc b : Nat) :
     lor (shlN (acc : Int) 7) (land (b : Int) 127) = ((acc * 128 + b % 128 : Nat) : Int) := by
   rw [shlN_ofNat, land_lit_right, lor_ofNat]
@@ -167,61 +165,6 @@ theorem vlq_step (acc b : Nat) :
   have h1 : b &&& 127 = b % 128 := Nat.and_two_pow_sub_one_eq_mod b 7
   have h2 : b % 128 < 2 ^ 7 := by omega
   rw [h1, ← Nat.shiftLeft_add_eq_or_of_lt h2, Nat.shiftLeft_eq]
-
-/-- the bytes `bs` not yet read, with the file position `p` -/
-def mkFile (bs : List Nat) (p : Int) : PyFile := { rest := natsToInts bs, pos := p }
-
-set_option maxRecDepth 4000 in
-theorem src_read_vlq_loop : ∀ (bs : List Nat) (fuel acc : Nat) (p : Int), bs.length < fuel →
-    Src.read_variable_int.loop1 fuel (mkFile bs p) (acc : Int) =
-      match readVlqAcc acc bs with
-      | .ok (v, r) => .ok (Sum.inl ((v : Int), mkFile r (p + bs.length - r.length)))
-      | .error e => .error e
-  | [], fuel, acc, p, h => by
-    match fuel with
-    | 0 => omega
-    | f + 1 => simp [Src.read_variable_int.loop1, readVlqAcc, mkFile, natsToInts, readByte, bind, Except.bind]
-  | b :: rest, fuel, acc, p, h => by
-    match fuel with
-    | 0 => simp at h
-    | f + 1 =>
-      have ih := src_read_vlq_loop rest f (acc * 128 + b % 128) (p + 1) (by simp at h; omega)
-      rw [Src.read_variable_int.loop1, readVlqAcc]
-      simp only [mkFile, natsToInts, List.map_cons, readByte]
-      simp only [bind, Except.bind, pure, Except.pure, if_true, Int.ofNat_eq_natCast, vlq_step]
-      by_cases hb : b < 128
-      · have hb' : ((b : Int) < 128) := by omega
-        simp [hb, hb']
-        omega
-      · have hb' : ¬ ((b : Int) < 128) := by omega
-        simp only [hb, hb', decide_false, Bool.false_eq_true, if_false]
-        simp only [mkFile, natsToInts] at ih
-        rw [ih]
-        cases readVlqAcc (acc * 128 + b % 128) rest with
-        | error e => rfl
-        | ok pr =>
-          obtain ⟨v, r⟩ := pr
-          have hp : p + 1 + (rest.length : Int) - (r.length : Int)
-              = p + ((b :: rest).length : Int) - (r.length : Int) := by
-            simp only [List.length_cons]; push_cast; omega
-          simp only [mkFile, hp]
-
-/-- `read_variable_int`, as translated from the source, is the model's `readVlq` on every byte list: value, the
-    unread rest and the new file position, or `EOFError` when the input ends inside the quantity -/
-theorem src_read_variable_int (bs : List Nat) (p : Int) :
-    Src.read_variable_int (mkFile bs p) =
-      match readVlq bs with
-      | .ok (v, r) => .ok ((v : Int), mkFile r (p + bs.length - r.length))
-      | .error e => .error e := by
-  have h := src_read_vlq_loop bs (bs.length + 1) 0 p (by omega)
-  have hl : (mkFile bs p).rest.length = bs.length := by simp [mkFile, natsToInts]
-  simp only [Src.read_variable_int, hl, bind, Except.bind, pure, Except.pure]
-  have h0 : ((0 : Nat) : Int) = 0 := rfl
-  rw [h0] at h
-  rw [h, readVlq]
-  cases readVlqAcc 0 bs with
-  | error e => rfl
-  | ok pr => rfl
 
 /-! ### `decode_variable_int` of meta.py (used by `MetaMessage.from_bytes`) -/
 
